@@ -38,14 +38,23 @@ def mulmod_exact(A, B, mod):
     return tm.trunc(tm.bv('urem', P, mod, 512), 256)
 
 
+def comm_uf(name, a, b, w=256):
+    """commutative uninterpreted function: f(min(a,b), max(a,b)) -- commutativity is semantic, not an accident of
+    term ordering"""
+    a, b = tm.lift(a, w), tm.lift(b, w)
+    if a is b:
+        return tm.uf(name, [a, a], w)
+    le = tm.ule(a, b, w)
+    lo = tm.ite(le, a, b, w)
+    hi = tm.ite(le, b, a, w)
+    return tm.uf(name, [tm.lift(lo, w), tm.lift(hi, w)], w)
+
+
 def mulmod_uf(name):
     def f(A, B, mod):
         if not isinstance(A, tm.T) and not isinstance(B, tm.T):
             return A * B % mod
-        a, b = tm.lift(A, 256), tm.lift(B, 256)
-        if a.id > b.id:
-            a, b = b, a
-        return tm.uf(name, [a, b], 256)
+        return comm_uf(name, A, B)
     return f
 
 
